@@ -258,3 +258,46 @@ fn dialect_rec(sigma: &[&[u8]], cur: &mut Vec<Op>, maxlen: usize, rep: &mut Repo
         cur.pop();
     }
 }
+
+/// rqmc describe <strip> <file>...: parse each file with the real parser and print one JSON line per file:
+/// {"file":..,"ok":bool,"error":..,"file_patches":[{old,new,kind,rename,old_mode,new_mode,hunks:[{old_start,old,new_start,new}]}]}
+pub fn describe_cmd(args: &[String]) {
+    use std::os::unix::ffi::OsStrExt;
+    let strip: usize = args[0].parse().unwrap();
+    for f in &args[1..] {
+        let data = std::fs::read(f).unwrap_or_default();
+        let r = std::panic::catch_unwind(|| match parse_patch(&data, strip, false) {
+            Err(e) => J::obj(vec![("file", J::s(f)), ("ok", J::B(false)), ("error", J::s(&format!("{}", e)))]),
+            Ok(p) => {
+                let fps: Vec<J> = p
+                    .file_patches
+                    .iter()
+                    .map(|fp| {
+                        J::obj(vec![
+                            ("old", fp.old_filename().map(|n| J::bytes(n.as_os_str().as_bytes())).unwrap_or(J::Null)),
+                            ("new", fp.new_filename().map(|n| J::bytes(n.as_os_str().as_bytes())).unwrap_or(J::Null)),
+                            ("kind", J::s(kind_name(fp.kind()))),
+                            ("rename", J::B(fp.is_rename())),
+                            ("old_mode", mode_of(&fp.old_permissions().cloned()).map(|m| J::u(m as u64)).unwrap_or(J::Null)),
+                            ("new_mode", mode_of(&fp.new_permissions().cloned()).map(|m| J::u(m as u64)).unwrap_or(J::Null)),
+                            (
+                                "hunks",
+                                J::A(fp.hunks().iter().map(|h| J::obj(vec![
+                                    ("old_start", J::I(h.remove.target_line as i64)),
+                                    ("old", J::A(h.remove.content.iter().map(|l| J::bytes(l)).collect())),
+                                    ("new_start", J::I(h.add.target_line as i64)),
+                                    ("new", J::A(h.add.content.iter().map(|l| J::bytes(l)).collect())),
+                                ])).collect()),
+                            ),
+                        ])
+                    })
+                    .collect();
+                J::obj(vec![("file", J::s(f)), ("ok", J::B(true)), ("file_patches", J::A(fps))])
+            }
+        });
+        match r {
+            Ok(j) => println!("{}", j.to_string()),
+            Err(e) => println!("{}", J::obj(vec![("file", J::s(f)), ("ok", J::B(false)), ("error", J::s(&format!("panic: {}", panic_message(e))))]).to_string()),
+        }
+    }
+}
